@@ -2,6 +2,8 @@ import Chain33Model.Proofs.C15Main
 /-!
 C15 — supply accounting: `supply` moves by exactly `opSupply op result` in every step.
 -/
+set_option linter.unusedSectionVars false
+set_option linter.unusedSimpArgs false
 namespace C15
 section
 variable {σ κ : Type} [DecidableEq σ] [DecidableEq κ] (c : Cfg σ κ)
